@@ -65,7 +65,10 @@ impl Session {
             rec2.count.fetch_add(1, Ordering::Relaxed);
             if ev.get("ev").and_then(|v| v.as_str()) == Some("worker") {
                 match ev.get("what").and_then(|v| v.as_str()) {
-                    Some("start") => rec2.workers_started.fetch_add(1, Ordering::SeqCst),
+                    // counted when the thread is SPAWNED: a worker that has not begun to run when
+                    // execute_blocking gives up (early panic) still belongs to this job
+                    Some("spawn") => rec2.workers_started.fetch_add(1, Ordering::SeqCst),
+                    Some("start") => 0,
                     _ => rec2.workers_finished.fetch_add(1, Ordering::SeqCst),
                 };
             }
